@@ -181,6 +181,47 @@ theorem afterConnect_released (proxy : Bool) (s : Sys) (hc : s.cfg.v.cleanup = t
         exact runLoop_released _ (by simp only; rw [hcfg2, hcfg1]; exact hc)
       · rw [bind_err h2]; exact hrel
 
+/-- the `try` statement when the selector's constructor raises: released at the end -/
+theorem runLoopNoSel_released (s : Sys) (hc : s.cfg.v.cleanup = true) : Released (runLoopNoSel s).state := by
+  unfold runLoopNoSel
+  rcases onLoopEnd_state (some (.other "error")) s with ⟨a, s2, h2, hsock, hsel, hcfg⟩ | ⟨x, s2, h2, hsel, hcfg, _⟩
+  · obtain ⟨s3, h3⟩ := selClose_ok s2
+    have c3 := selClose_state s2
+    rw [h3] at c3; simp only [Res.state_ok] at c3
+    have : (do onLoopEnd (some (.other "error")); selClose : M Unit) s = .ok () s3 := by rw [bind_ok h2]; exact h3
+    rw [tryC_ok this]
+    exact ⟨c3.2.trans hsock, c3.1⟩
+  · have : (do onLoopEnd (some (.other "error")); selClose : M Unit) s = .err x s2 := bind_err h2
+    rw [tryC_err this]
+    exact runFinally_released x s2 (by rw [hcfg]; exact hc)
+
+theorem afterConnectNoSel_released (proxy : Bool) (s : Sys) (hc : s.cfg.v.cleanup = true) (hsel : s.selOpen = false) :
+    Released (afterConnectNoSel proxy s).state := by
+  unfold afterConnectNoSel
+  rw [bind_ok (show modS (fun s => { s with sockOpen := true }) s = .ok () { s with sockOpen := true } from rfl)]
+  rw [bind_ok (show getS { s with sockOpen := true } = .ok _ _ from rfl)]
+  have sw := step_write s.cfg.request none { s with sockOpen := true }
+  cases hw : write s.cfg.request none { s with sockOpen := true } with
+  | err x s1 =>
+    exfalso
+    unfold write at hw
+    simp only [] at hw
+    repeat' split at hw
+    all_goals cases hw
+  | ok r s1 =>
+    rw [hw] at sw; simp only [Res.state_ok] at sw
+    have hsel1 : s1.selOpen = false := sw.selKeep.trans hsel
+    have hcfg1 : s1.cfg = s.cfg := sw.cfg
+    rw [bind_ok hw]
+    split
+    · have := closeThenYield (.connectFail "request-failed") s1
+      exact ⟨this.1, this.2.1.trans hsel1⟩
+    · rcases yieldConnected_state proxy s1 (by rw [hcfg1]; exact hc) hsel1 with ⟨s2, h2, hsel2, hcfg2⟩ | ⟨x, s2, h2, hrel⟩
+      · rw [bind_ok h2]
+        rw [bind_ok (show modS (fun s => { s with selOpen := false }) s2 = .ok () { s2 with selOpen := false } from rfl)]
+        exact runLoopNoSel_released _ (by simp only; rw [hcfg2, hcfg1]; exact hc)
+      · rw [bind_err h2]; exact hrel
+
 /-- **run() always releases the socket and the selector** (repaired code), whatever the
     server, the environment and the application do — including abandoning the generator at any
     event, which is just one of the ways `run` can end. -/
@@ -198,5 +239,6 @@ theorem run_released (s : Sys) (hr : Released s) (hc : s.cfg.v.cleanup = true) :
     | socketFail => exact (step_yieldEv _ s1).released hr1
     | otherFail => exact (step_yieldEv _ s1).released hr1
     | ok proxy => exact afterConnect_released _ s1 (by rw [st.cfg]; exact hc) hr1.2
+    | selFail proxy => exact afterConnectNoSel_released _ s1 (by rw [st.cfg]; exact hc) hr1.2
 
 end Lomond.Core
